@@ -295,7 +295,17 @@ pub fn run(run: &RunInfo) -> Summary {
             let mut cfg = base_config();
             cfg.feig_config.read_card_timeout = *t;
             // (i) reply delayed by one second must be accepted; (ii) a silent terminal must not hang the call
-            for (mode, forced, delay) in [("reply after 1 s", None, 1000u64), ("terminal silent on every connection", Some(Persist::Packet(Xch::Main, 1, u32::MAX)), 0)] {
+            // finite silences inside the time-out T = read_card_timeout + 2 s: 1 s, T/2, T - 1 ms, and the
+            // module-wide 60 s time-out of the other operations +- 1 ms wherever that is still inside T
+            let t_ms = (*t as u64 + 2) * 1000;
+            let mut modes: Vec<(String, Option<Persist>, u64)> = vec![("reply after 1 s".into(), None, 1000u64), ("terminal silent on every connection".into(), Some(Persist::Packet(Xch::Main, 1, u32::MAX)), 0)];
+            for d in [t_ms / 2, t_ms - 1, 59_999, 60_000, 60_001] {
+                if d > 1000 && d < t_ms && !modes.iter().any(|m| m.2 == d) {
+                    modes.push((format!("reply after {d} ms of silence (inside the time-out of {t_ms} ms)"), None, d));
+                }
+            }
+            for (mode, forced, delay) in modes {
+                let mode = mode.as_str();
                 let mut ctx = Ctx::new(vec![], vec![], 0);
                 let o = run_ops(&mut ctx, &cfg, &[Op::ReadCard], false, forced, delay, acc);
                 acc.count("executions", 1);
@@ -346,7 +356,7 @@ pub fn run(run: &RunInfo) -> Summary {
         transitions: acc.get("transitions"),
         traces_validated: execs,
         distinct_nontrivial: acc.set_len("outcomes"),
-        rule: "real Feig client against the simulated terminal under the paused clock: 6 scenarios (Feig::new + read_card / begin / commit / cancel / commit with another transaction open / configure) x a stall at every terminal-to-client packet position of every exchange (handshake included), at connect (future never resolving) and on the write side (data never accepted), each lasting for this connection only, for the first three connections, or for every connection, and the terminal closing the connection at any packet position; every pair of such faults per history; read_card_timeout 0..=255 each with a reply delayed by 1 s (must be accepted) and with a permanently silent terminal; transactions_max_num {0,1,usize::MAX}, password/amount/currency at both ends of their wire range, empty / non-numeric / oversized terminal ids, each with a responsive and with a silent terminal. Oracle: every call returns, no panic, virtual elapsed time <= exchanges x 20 x (2 s + 6 x T)".into(),
+        rule: "real Feig client against the simulated terminal under the paused clock: 6 scenarios (Feig::new + read_card / begin / commit / cancel / commit with another transaction open / configure) x a stall at every terminal-to-client packet position of every exchange (handshake included), at connect (future never resolving) and on the write side (data never accepted), each lasting for this connection only, for the first three connections, or for every connection, and the terminal closing the connection at any packet position; every pair of such faults per history; read_card_timeout 0..=255 each with a reply delayed by 1 s, by half the time-out T, by T - 1 ms and by 60 s -1/+0/+1 ms where that is inside T (must be accepted) and with a permanently silent terminal; transactions_max_num {0,1,usize::MAX}, password/amount/currency at both ends of their wire range, empty / non-numeric / oversized terminal ids, each with a responsive and with a silent terminal. Oracle: every call returns, no panic, virtual elapsed time <= exchanges x 20 x (2 s + 6 x T)".into(),
         exhaustive: true,
         required_witnesses: vec![
             "the terminal fell silent at some packet position".into(),
